@@ -33,10 +33,10 @@ Definition eff (d : Z) (h h' : half) : Prop :=
   WF h -> WF h' /\ BalU h' = BalU h /\ BalQ h' = BalQ h /\ BalT h' = BalT h /\ D h' = D h + d.
 
 Lemma eff_refl h : eff 0 h h.
-Proof. unfold eff; intros; repeat split; auto; lia. Qed.
+Proof. unfold eff; intros W; split; [exact W|]; repeat split; lia. Qed.
 Lemma eff_trans d1 d2 h1 h2 h3 : eff d1 h1 h2 -> eff d2 h2 h3 -> eff (d1 + d2) h1 h3.
 Proof. unfold eff; intros A B W. destruct (A W) as (W2 & ? & ? & ? & ?). destruct (B W2) as (W3 & ? & ? & ? & ?).
-  repeat split; try congruence; lia. Qed.
+  split; [exact W3|]. repeat split; try congruence; lia. Qed.
 Lemma eff_eq d d' h h' : eff d h h' -> d = d' -> eff d' h h'.
 Proof. intros; subst; auto. Qed.
 
@@ -105,7 +105,7 @@ Lemma eff_combined h t g (fe : entry -> entry) (dq du dt : Z) cs' :
 Proof.
   intros Ht Hg Hq Hu Hdt W. split; [apply WF_upd; auto|].
   unfold BalU, BalQ, BalT, D, SQu, SQq, SEu, SEq, STn; simpl.
-  rewrite !(sum_map_upd _ _ dq) by auto. rewrite !(sum_map_upd _ _ dent) by auto.
+  rewrite !(sum_map_upd _ _ Model.dq) by auto. rewrite !(sum_map_upd _ _ dent) by auto.
   rewrite sum_upd_add by (rewrite (wf_tn _ W); auto).
   unfold getent in *. simpl. lia.
 Qed.
@@ -115,27 +115,31 @@ Lemma eff_recv_unchoke n h h' : recv_unchoke n h = Ok h' -> eff n h h'.
 Proof. unfold recv_unchoke. destruct (h_cur h + n <? 0); intros H; inversion H.
   eapply eff_eq; [apply eff_with_cur | lia]. Qed.
 
-Lemma eff_connection_queued c h h' : connection_queued c h = Ok h' -> eff 0 h h'.
-Proof. unfold connection_queued. destruct (has c _); intros H; inversion H. intros W.
-  pose proof (tor_lt h c W). pose proof (grp_lt h (tor_of h c) W).
-  assert (E := eff_combined h (tor_of h c) (grp_of h (tor_of h c)) (fun e => e_setq (push c (e_q e)) e) 1 0 0 (h_cs h)).
-  unfold updq, upde, with_qs, with_ents. simpl.
-  replace (h_tn h) with (upd (tor_of h c) (fun x => x + 0) (h_tn h)) at 1.
-  - apply E; auto; simpl; rewrite ?lenZ_push; lia.
-  - clear. generalize (tor_of h c). induction (h_tn h); destruct n; simpl; f_equal; auto; lia.
-Qed.
-
 Lemma upd_add0 n l : upd n (fun x : Z => x + 0) l = l.
 Proof. revert n; induction l; destruct n; simpl; f_equal; auto; lia. Qed.
 
+Lemma eff_combined0 h t g (fe : entry -> entry) (dq : Z) :
+  (t < length (h_ents h))%nat -> (g < length (h_qs h))%nat ->
+  lenZ (e_q (fe (getent h t))) = lenZ (e_q (getent h t)) + dq ->
+  lenZ (e_u (fe (getent h t))) = lenZ (e_u (getent h t)) + 0 ->
+  eff 0 h (updq g (q_add dq 0) (upde t fe h)).
+Proof.
+  intros Ht Hg Hq Hu.
+  assert (X : updq g (q_add dq 0) (upde t fe h) =
+              mkH (h_cs h) (h_ctor h) (upd t fe (h_ents h)) (upd t (fun x => x + 0) (h_tn h)) (h_tgrp h)
+                  (upd g (q_add dq 0) (h_qs h)) (h_cur h) (h_max h) (h_rs h)).
+  { unfold updq, upde, with_qs, with_ents; simpl. rewrite upd_add0. reflexivity. }
+  rewrite X. eapply eff_eq; [apply eff_combined; auto | lia].
+Qed.
+
+Lemma eff_connection_queued c h h' : connection_queued c h = Ok h' -> eff 0 h h'.
+Proof. unfold connection_queued. destruct (has c _); intros H; inversion H. intros W.
+  refine (eff_combined0 h _ _ _ 1 (tor_lt h c W) (grp_lt h _ W) _ _ W); simpl; rewrite ?lenZ_push; lia. Qed.
+
 Lemma eff_connection_unqueued c h h' : connection_unqueued c h = Ok h' -> eff 0 h h'.
 Proof. unfold connection_unqueued. destruct (remove_swap c _) eqn:R; intros H; inversion H. intros W.
-  pose proof (tor_lt h c W). pose proof (grp_lt h (tor_of h c) W).
-  assert (E := eff_combined h (tor_of h c) (grp_of h (tor_of h c)) (e_setq w) (-1) 0 0 (h_cs h)).
-  unfold updq, upde, with_qs, with_ents. simpl.
-  rewrite <- (upd_add0 (tor_of h c) (h_tn h)) at 1.
-  apply E; auto; simpl; try lia. apply lenZ_remove_swap in R. lia.
-Qed.
+  apply lenZ_remove_swap in R.
+  refine (eff_combined0 h _ _ _ (-1) (tor_lt h c W) (grp_lt h _ W) _ _ W); simpl; lia. Qed.
 
 Lemma eff_set_not_queued_inner c h h' : set_not_queued_inner c h = Ok h' -> eff 0 h h'.
 Proof. unfold set_not_queued_inner. destruct (negb (cs_q (getcs h c))); [intros H; inversion H; apply eff_refl|].
@@ -197,7 +201,7 @@ Theorem eff_set_snubbed v c h h' : set_snubbed v c h = Ok h' -> eff 0 h h'.
 Proof. unfold set_snubbed. destruct (cs_s _); [intros H; inversion H; apply eff_refl|].
   destruct (cs_u _).
   - destruct (slot v c true _) as [[h1 r]|] eqn:S; [|discriminate]. simpl.
-    destruct (recv_unchoke (-1) h1) eqn:R; [|discriminate]. destruct (connection_unqueued c h0) eqn:U; [|discriminate].
+    destruct (recv_unchoke (-1) h1) as [h2|] eqn:R; [|discriminate]. destruct (connection_unqueued c h2) as [h3|] eqn:U; [|discriminate].
     intros H; inversion H; subst.
     eapply eff_eq; [eapply eff_trans; [apply (eff_updcs c (set_s true))|eapply eff_trans; [eapply eff_slot; eauto|
       eapply eff_trans; [eapply eff_recv_unchoke; eauto|eapply eff_trans; [eapply eff_connection_unqueued; eauto|apply eff_updcs]]]]|reflexivity].
